@@ -12,6 +12,17 @@ from . import common
 
 ID = 'C18'
 LEVEL = 'exploration'
+# scenario variants and fault kinds mixed into the seeded part (reported in
+# the evidence; DESIGN 14.6 says where each came from)
+VARIANTS = [
+    "two logins (user / handler)",
+    "mixed recv()/read() stretch",
+    "two Connections concurrently, with keep-alives during the writes",
+    "wrapper level with EAGAIN",
+    "online-mode login with scripted session service",
+    "second thread holding the write lock during login",
+    "application answer queued while the encryption response goes out"
+]
 RUNS = {'quick': 4000, 'thorough': 150000}
 WALL_CAP = {'quick': 200, 'thorough': 3300}
 UUID0 = '00112233445566778899aabbccddeeff'
